@@ -409,6 +409,21 @@ Example C03_dispatcher_walk_example :
   CLDispWalk.gids G 5 = [0; 2; 3].
 Proof. vm_compute. repeat split. Qed.
 
+(* WHICH callbacks: in every configuration every schedule reaches, an event's list has exactly as many nodes as adding
+   sections were logged for the event, and its n-th node carries the callback the n-th of them registered — sections never
+   rewrite the callback of a node (CLDispCb.v).  With the walks' theorem (nodes): a dispatch calls exactly the callbacks
+   that were registered for the event, were in the list when it read head and were not removed before it ended *)
+From EV Require CLDispCb.
+Theorem C03_dispatcher_nodes_carry_the_registered_callbacks :
+  forall prog sched,
+    (forall t, Forall CLDispConc.call_wf (prog t)) ->
+    let c := CLDispConc.dcrun (CLDispConc.dinit prog) sched in
+    forall e, length (heap (CLDisp.dget (CLDispConc.dmap c) e)) = length (CLDispCb.adds_for e (CLDispConc.dlog c)) /\
+              forall n nd, nth_error (heap (CLDisp.dget (CLDispConc.dmap c) e)) n = Some nd ->
+                           option_map CLDispCb.cb_of_sec (nth_error (CLDispCb.adds_for e (CLDispConc.dlog c)) n) = Some (cb nd).
+Proof. exact CLDispCb.dispatcher_nodes_carry_the_registered_callbacks. Qed.
+Print Assumptions C03_dispatcher_nodes_carry_the_registered_callbacks.
+
 Example C03_dispatcher_machine_example :
   let prog := fun t => match t with
                        | 0 => [CLDispConc.KSec true (CLDisp.DAdd 7 (SBack 1 0%N)); CLDispConc.KSec false (CLDisp.DOn 7 (SRemove (Some 0)))]
